@@ -29,7 +29,7 @@ func Spec(t *rapid.T) *hist.DSpec {
 	case "opaque":
 		d.Type, d.OpaqueLen, d.OpaqueTag = "opaque", rapid.SampledFrom([]int{1, 5, 8}).Draw(t, "olen"), rapid.SampledFrom([]string{"t", "opaque tag"}).Draw(t, "otag")
 	case "cmp":
-		d.Type = rapid.SampledFrom([]string{"cmp:num", "cmp:str"}).Draw(t, "cmp")
+		d.Type = rapid.SampledFrom([]string{"cmp:num", "cmp:str", "cmp:pad", "cmp:ooo"}).Draw(t, "cmp")
 	case "vl":
 		d.Type = rapid.SampledFrom([]string{"vl:str", "vl:str", "vl:i32", "vl:i64", "vl:u32", "vl:u64", "vl:f32", "vl:f64"}).Draw(t, "vl")
 	default:
